@@ -50,10 +50,47 @@ fn small_off(r: &mut Rng) -> i128 {
     }
 }
 
+/// The *threshold lattice* of the epoch code: every word-size limit of a nanosecond or second count (0, +/-2^63, +/-2^64 ns,
+/// +/-2^31, +/-2^32 s) shifted by every reference offset of the time scales and by every difference of two of them --
+/// the places where a guard, a headroom constant or a fast path written in terms of one scale's count and another scale's
+/// reference can sit (seeded change C05-6: a 64-bit fast path guarded by the WRONG scale's offset was wrong only between
+/// -2^63 ns + offset(GST) and -2^63 ns + offset(BDT), a window of 6.4 years two centuries before the reference).
+/// Returned sorted, each threshold followed (except the last per limit) by the MIDPOINT to the next one, so that a
+/// wrong region bounded by two thresholds is hit in its interior as well as at its edges.
+pub fn threshold_lattice() -> Vec<i128> {
+    let offs: Vec<i128> = ["TAI", "TT", "GPST", "GST", "BDT", "ET"].iter().map(|t| ref_off(t)).collect();
+    let mut shifts: Vec<i128> = Vec::new();
+    for a in offs.iter() {
+        shifts.push(*a);
+        shifts.push(-*a);
+        for b in offs.iter() {
+            shifts.push(*a - *b);
+            shifts.push(*a + *b);
+            shifts.push(-*a - *b);
+        }
+    }
+    shifts.sort();
+    shifts.dedup();
+    let mut out = Vec::new();
+    for lim in [0i128, 1 << 63, -(1 << 63), 1 << 64, -(1 << 64), (1 << 31) * SEC, -(1 << 31) * SEC, (1 << 32) * SEC, -(1 << 32) * SEC] {
+        for (i, sh) in shifts.iter().enumerate() {
+            out.push(lim + sh);
+            if i + 1 < shifts.len() {
+                out.push(lim + (sh + shifts[i + 1]) / 2);
+            }
+        }
+    }
+    out
+}
+
 /// total ns of an epoch's duration in scale `ts`, aimed at structure
 pub fn epoch_total(r: &mut Rng, ts: &str) -> i128 {
     let leaps = leap_ts();
-    match r.below(12) {
+    match r.below(13) {
+        12 => {
+            let l = threshold_lattice();
+            *r.pick(&l) + *r.pick(&[-1i128, 0, 0, 1])
+        }
         0 | 1 | 2 => {
             // around a leap second, in this scale's own count
             let (t, d) = *r.pick(&leaps);
@@ -225,6 +262,34 @@ pub fn inputs_c05(r: &mut Rng, n: usize, _tier: &str, out: &mut dyn Write) {
             for c in -2i128..=2 {
                 for dt in [-1i128, 0, 1] {
                     writeln!(out, "tots {}:{} {}", dstr(c * NPC - (ref_off(a) - ref_off(b)) + dt), a, b).unwrap();
+                }
+            }
+        }
+    }
+    // threshold lattice: every value of it (+/- 1 ns at the thresholds), converted between 6 random ordered pairs of
+    // scales in the quick tier and between all 30 in the thorough tier / extended search
+    {
+        let mut pairs: Vec<(&str, &str)> = Vec::new();
+        for a in UNIFORM {
+            for b in UNIFORM {
+                if a != b {
+                    pairs.push((a, b));
+                }
+            }
+        }
+        for (i, v) in threshold_lattice().iter().enumerate() {
+            let k0 = r.below(30) as usize;
+            let np = if _tier == "thorough" { 30 } else { 6 };
+            for j in 0..np {
+                let (a, b) = pairs[(k0 + j * 5 + j / 6) % 30];
+                let dts: &[i128] = if i % 2 == 0 { &[-1, 0, 1] } else { &[0] };
+                for dt in dts {
+                    let e = (*v + *dt).clamp(DMIN, DMAX);
+                    match (i + j) % 4 {
+                        0 | 1 => writeln!(out, "tots {}:{} {}", dstr(e), a, b).unwrap(),
+                        2 => writeln!(out, "tsback {}:{} {}", dstr(e), a, b).unwrap(),
+                        _ => writeln!(out, "tscomm {}:{} {} {}", dstr(e), a, b, dstr(1 + r.below(1000) as i128)).unwrap(),
+                    }
                 }
             }
         }
@@ -414,6 +479,31 @@ pub fn inputs_c07(r: &mut Rng, n: usize, tier: &str, out: &mut dyn Write) {
                 if k % 4 == 0 {
                     writeln!(out, "dyn_rt {}:{} {}", dstr(half + k), dy, u).unwrap();
                     writeln!(out, "dyn_rt {}:TAI {}", dstr(j2000 - half + k), dy).unwrap();
+                }
+            }
+        }
+    }
+    // phase block: the instants at which the periodic term of ET/TDB vanishes (mean anomaly = k*pi) or is extremal
+    // ((k + 1/2)*pi), and their neighbourhood out to a quarter of an hour -- where a convergence test, an early exit or a
+    // tolerance written in terms of the SIZE of the correction (or of its change) behaves differently (seeded change
+    // C07-6: a fixed-point loop on the periodic term that exits on its first pass when |g| < 100 ns)
+    {
+        let j2000 = 3_155_716_800 * SEC;
+        for (i, dy) in DYN.iter().enumerate() {
+            let (m0, m1) = if *dy == "ET" { (6.239996_f64, 1.99096871e-7_f64) } else { (357.528_f64.to_radians(), 1.990910018065731e-7_f64) };
+            for j in 0..24i64 {
+                // k*pi/2 for k spread over +/- 10 000 years (|M1*t| < 62 800 rad), always including the crossings next to J2000
+                let k: i64 = if j < 6 { j - 1 } else { r.range_i64(-39_000, 39_000) };
+                let t0 = ((k as f64) * std::f64::consts::FRAC_PI_2 - m0) / m1; // seconds past J2000
+                for dt in [-900i128, -400, -250, -150, -90, -60, -30, -5, 0, 5, 30, 60, 90, 150, 250, 400, 900] {
+                    let t = ((t0 * 1e9) as i128) + dt * SEC + r.below(SEC as u64) as i128;
+                    let u = UNIFORM[((j as usize) + i + (dt.unsigned_abs() as usize)) % UNIFORM.len()];
+                    writeln!(out, "dyn_to {}:{} {}", dstr(j2000 - ref_off(u) + t), u, dy).unwrap();
+                    writeln!(out, "dyn_to {}:{} {}", dstr(t), dy, u).unwrap();
+                    if dt % 20 != 0 || dt == 0 {
+                        writeln!(out, "dyn_rt {}:{} {}", dstr(j2000 - ref_off(u) + t), u, dy).unwrap();
+                        writeln!(out, "dyn_rt {}:{} {}", dstr(t), dy, u).unwrap();
+                    }
                 }
             }
         }
